@@ -1,3 +1,3 @@
 LINK := full
 KITS := chainkit
-CXXEXTRA := -I/repo/src/leveldb
+CXXEXTRA := -I$(REPO)/src/leveldb
